@@ -392,6 +392,18 @@ for path in files:
         except Exception as e:
             results["mismatches"].append({"key": key, "what": f"{fname} {bpath}: TBranch.array() / canonicalisation raised {type(e).__name__}: {str(e)[:300]}"})
             results["branches"].append(rec); continue
+        if m["kind"] == ["obj", "1"]:
+            # digi collections present the raw-data members at top level - for EVERY read of the branch, also one that covers only
+            # events without digis (the presentation must not depend on the values that happen to be in the range)
+            want_fields = flat_field_names(m["cls"], streamers)
+            reads = [("full read", arr)]
+            empties = [i for i, e in enumerate(model) if not e]
+            for i in empties[:3]:
+                reads.append((f"entries [{i}, {i + 1}) (an event without digis)", br.array(entry_start=i, entry_stop=i + 1)))
+            for label, a in reads:
+                if list(a.fields) != want_fields:
+                    results["mismatches"].append({"key": key + ":digi-fields", "what": f"{fname} {bpath} ({m['cls']}), {label}: presented fields {list(a.fields)}, "
+                                                  f"expected the raw-data members at top level: {want_fields}"}); break
         nobj = sum(len(e) for e in model) if m["kind"][0] != "map" else sum(len(e) for e in model)
         rec.update({"events": len(model), "objects": nobj, "values": count_leaves(model)})
         n_objects += nobj; n_values += rec["values"]
@@ -435,6 +447,9 @@ for case in inp.get("synthetic") or []:
         arr = ak.Array(fac.make_awkward_content(raw))
         if case.get("digi"):
             arr = root_io.preprocess_subbranch(case["path"], arr)
+            r["fields"] = list(arr.fields)
+            if case.get("cls") in case.get("streamer", {}) and all("_kind" in e for v in case["streamer"].values() for e in v):
+                r["want_fields"] = flat_field_names(case["cls"], case["streamer"])
         r["factory"] = type(fac).__name__
         r["got"] = canon(ak.to_layout(arr))
     except Exception as e:
